@@ -97,6 +97,10 @@ def s02_3_type_binding(ctx, P):
              'signature type check dominates the primitive in %s' % short)
         # accepted set: read off the switch on discriminant(config.typ)
         acc = accepted_types(b, sinks)
+        if acc is not None and any(isinstance(x, str) for x in acc):
+            adt = ctx.f.adts.get('packet::signature::types::SignatureType')
+            names = {v['n']: v['d'] for v in adt['vars']} if adt else {}
+            acc = set(names.get(x, x) for x in acc)
         ctx.check('%s:S02-3:typeset:%s' % (P, path), 'R-table',
                   'accepted signature types of %s equal the RFC set %s' % (short, sorted(hex(x) for x in spec['types'])),
                   acc == spec['types'], function=b.path, table=sorted(acc) if acc is not None else None)
@@ -298,3 +302,123 @@ def s02_5_onepass(ctx, P):
                      ('pubalg', [r'field:OnePassSignature\.pub_algorithm$'])]:
         rdom(ctx, '%s:S02-5:matches:%s' % (P, fld), b, trues, rxs,
              'OnePassSignature::matches returns true only after comparing %s with the signature' % fld)
+
+
+def must_seq(ctx, key, b, seq, desc, rule='R-seq'):
+    """`seq` = list of (label, call regex).  Each element's call blocks must lie on every path from entry to the
+    last element's call blocks, and element k must lie on every path to element k+1."""
+    blocks = []
+    for label, rx in seq:
+        bl = call_blocks(b, rx)
+        if not bl:
+            ctx.violation(key, rule, desc + ' — call `%s` not found' % label, function=b.path, missing=label, fail_closed=True)
+            return False
+        blocks.append(bl)
+    for k in range(len(seq) - 1):
+        ok, wit = must_pass(b, blocks[k + 1], blocks[k])
+        if not ok:
+            ctx.violation(key, rule, desc, function=b.path, missing='`%s` can be reached without `%s`' % (seq[k + 1][0], seq[k][0]),
+                          witness=fmt_path(b, wit), site=site(b, wit[-1]))
+            return False
+    ctx.ok(key, rule, desc, function=b.path, sinks=[site(b, x) for x in blocks[-1]], table=[l for l, _ in seq])
+    return True
+
+
+def s02_2_what_is_hashed(ctx, P):
+    for path in TYPED_VERIFIERS:
+        b = ctx.body(path, '%s:S02-2:seq:%s' % (P, path))
+        if b is None:
+            continue
+        short = path.split('::')[-1]
+        must_seq(ctx, '%s:S02-2:seq:%s' % (P, path), b,
+                 [('new_hasher', r'HashAlgorithm::new_hasher$'), ('hash_signature_data', r'SignatureConfig::hash_signature_data$'),
+                  ('trailer', r'SignatureConfig::trailer$'), ('finalize', r'DynDigest::finalize$'), ('primitive', SINK)],
+                 'digest of %s is built new_hasher -> hashed fields -> trailer -> finalize -> primitive on every path' % short)
+        # trailer length argument derives from hash_signature_data's result
+        for i, t in b.calls(r'SignatureConfig::trailer$'):
+            og = b.operand_origins(t['args'][1])
+            ctx.check('%s:S02-2:trailer-len:%s' % (P, path), 'origin', 'trailer length derives from the hashed-fields span in %s' % short,
+                      has_origin(og, r'call:.*SignatureConfig::hash_signature_data$'), function=b.path, site=site(b, i))
+        # v6 salt: the hasher is updated with the salt on the V6 edge before hashing the content
+        salt_sw = [i for i, t in b.switches() if has_origin(b.switch_origins(i), r'field:SignatureConfig\.version_specific$')]
+        ctx.check('%s:S02-2:salt:%s' % (P, path), 'R-dom', 'v6 salt branch exists and feeds the hasher in %s' % short,
+                  bool(salt_sw) and any(has_origin(b.operand_origins(a), r'field:SignatureVersionSpecific::V6\.salt$')
+                                        for i, t in b.calls(r'DynDigest::update$') for a in t['args']),
+                  function=b.path)
+    # hash_signature_data / trailer never read the unhashed area
+    for path in (CFG + 'SignatureConfig::hash_signature_data', CFG + 'SignatureConfig::trailer'):
+        b = ctx.body(path)
+        if b is None:
+            continue
+        toks = set()
+        for i, blk in enumerate(b.blocks):
+            for s in blk['s']:
+                for pl in places_of(s):
+                    toks.update(e for e in pl['pr'] if e.startswith('.'))
+        for c in ctx.f.closures_of(path):
+            for blk in c['blocks']:
+                for s in blk['s']:
+                    for pl in places_of(s):
+                        toks.update(e for e in pl['pr'] if e.startswith('.'))
+        ctx.check('%s:S02-2:no-unhashed:%s' % (P, path), 'R-who', '%s does not read the unhashed subpacket area' % path.split('::')[-1],
+                  not any('unhashed_subpackets' in t for t in toks), function=path)
+    b = ctx.body(CFG + 'SignatureConfig::hash_signature_data')
+    if b is not None:
+        ctx.check(P + ':S02-2:hashed-area-read', 'R-who', 'hash_signature_data reads the hashed subpacket area, type, algorithms',
+                  all(any(f in e for blk in b.blocks for s in blk['s'] for pl in places_of(s) for e in pl['pr'])
+                      for f in ('SignatureConfig.hashed_subpackets', 'SignatureConfig.typ', 'SignatureConfig.pub_alg', 'SignatureConfig.hash_alg')),
+                  function=b.path)
+
+
+def places_of(s):
+    out = [s['d']]
+    r = s['r']
+    if 'p' in r:
+        out.append(r['p'])
+    for o in r.get('o', ()):
+        if 'l' in o:
+            out.append(o)
+    return out
+
+
+def s02_7_delegation(ctx, P):
+    b = ctx.body('composed::signature::DetachedSignature::verify')
+    if b is not None:
+        ok, why = is_pure_forwarder(b, r'Signature::verify$')
+        ctx.check(P + ':S02-7:detached', 'R-who', 'DetachedSignature::verify is a pure forwarder to Signature::verify', ok, function=b.path, missing=why)
+    b = ctx.body('composed::cleartext::CleartextSignedMessage::verify')
+    if b is not None:
+        oks = [i for i in ok_exit_blocks(b) if any(s['d']['l'] == 0 and s['r'].get('v') == 'Ok' for s in b.blocks[i]['s'])]
+        rdom(ctx, P + ':S02-7:cleartext-verify', b, oks, [r'call:.*Signature::verify$'],
+             'CleartextSignedMessage::verify returns Ok only after a successful Signature::verify')
+        for i, t in b.calls(r'Signature::verify$'):
+            og = b.operand_origins(t['args'][2])
+            ctx.check(P + ':S02-7:cleartext-data', 'origin', 'cleartext verification hashes signed_text()',
+                      has_origin(og, r'call:.*CleartextSignedMessage::signed_text$'), function=b.path, site=site(b, i))
+
+
+def conditional_guard(ctx, key, b, sinks, cond_spec, then_specs, desc, rule='R-dom', true_edge='else'):
+    """Every path to a sink passes a switch deriving from cond_spec; on that switch's true edge every path to the sink
+    passes, for each then_spec, a switch deriving from it that has a rejecting edge."""
+    sinks = sorted(set(sinks))
+    if not sinks:
+        ctx.violation(key, rule, desc + ' — sink not found', function=b.path, fail_closed=True)
+        return False
+    cs = [i for i, t in b.switches() if has_origin(b.switch_origins(i), cond_spec)]
+    ok, wit = must_pass(b, sinks, cs)
+    if not ok:
+        ctx.violation(key, rule, desc, function=b.path, missing='a path to the sink avoids every branch on %s' % cond_spec,
+                      witness=fmt_path(b, wit), site=site(b, wit[-1]))
+        return False
+    for c in cs:
+        t = b.blocks[c]['t']
+        te = t['else'] if true_edge == 'else' else t['targets'][0][1]
+        for spec in then_specs:
+            gs = [g for g, _ in guard_switches(b, sinks, [spec])]
+            p = b.find_path(te, set(sinks), removed=frozenset(gs))
+            if p is not None:
+                ctx.violation(key, rule, desc, function=b.path, missing='on the %s edge of the %s branch the sink is reachable without a rejecting check on %s' % (true_edge, cond_spec, spec),
+                              witness=fmt_path(b, p), site=site(b, p[-1]))
+                return False
+    ctx.ok(key, rule, desc, function=b.path, guards=[site(b, c) for c in cs], sinks=[site(b, s) for s in sinks])
+    return True
